@@ -938,10 +938,46 @@ type idOp struct {
 
 // ---------------------------------------------------------------------------------------------
 
+// queuedSignBytes puts the message into a queue of a real consensus keeper, reads it back (proto round trip)
+// and returns the id it got and the stored message's GetBytesToSign.
+func queuedSignBytes(t *testing.T, e *idEnv, it item) (uint64, []byte) {
+	id, err := e.k.PutMessageInQueue(e.ctx, e.names[0], it.evmMessage(), &consensus.PutOptions{RequireSignatures: true, RequireGasEstimation: true})
+	if err != nil {
+		t.Fatal(err)
+	}
+	ms, err := e.k.GetMessagesFromQueue(e.ctx, e.names[0], 0)
+	if err != nil {
+		t.Fatal(err)
+	}
+	for _, m := range ms {
+		if m.GetId() == id {
+			b, err := m.GetBytesToSign(cdc)
+			if err != nil {
+				t.Fatal(err)
+			}
+			return id, b
+		}
+	}
+	t.Fatalf("message %d not found after Put", id)
+	return 0, nil
+}
+
 func signCase(t *testing.T, run *emit.Run, r *rand.Rand, it item, fromCorpus bool) {
+	signCaseWith(t, run, r, it, fromCorpus, nil)
+}
+
+func signCaseWith(t *testing.T, run *emit.Run, r *rand.Rand, it item, fromCorpus bool, stored []byte) {
 	real, err := it.realSignBytes()
 	if err != nil {
 		t.Fatalf("real sign bytes failed on a generated item: %v\n%+v", err, it)
+	}
+	if stored != nil {
+		run.Count("path", "through-keeper-queue")
+		if !bytes.Equal(stored, real) {
+			run.Violate("C05:queued-signbytes-differ", fmt.Sprintf("%s: GetBytesToSign of the stored message %x differs from that of the message as built %x", it.Kind, stored, real),
+				map[string]any{"kind": "sign", "a": it})
+		}
+		real = stored
 	}
 	inner, outer, err := it.preimages()
 	if err != nil {
@@ -1073,6 +1109,15 @@ func TestCorr(t *testing.T) {
 	for i := 0; i < nSign; i++ {
 		kind := kinds[i%len(kinds)]
 		signCase(t, run, r, drawItem(r, kind), false)
+	}
+	// through a real keeper queue: the id is the one the keeper allocated, the stored message went through protobuf
+	qenv := newIDEnv(t, 1)
+	for i := 0; i < run.N/20; i++ {
+		it := drawItem(r, kinds[i%5])
+		it.Est = 0
+		id, stored := queuedSignBytes(t, qenv, it)
+		it.ID = id
+		signCaseWith(t, run, r, it, false, stored)
 	}
 	// hostile: fee payer longer than 32 bytes must not yield signing bytes at all
 	for i := 0; i < 10; i++ {
